@@ -35,7 +35,7 @@ def build(scn):
     lmi = pep.add_psd_matrix(lmi_rows)
     pep.set_performance_metric(metric)
     held.update(leafpoint=x0, derivedpoint=x1, leafexpr=f0, derivedexpr=(x1 - xs) ** 2, constraint=ic if scn != "unbounded2" else (t <= 5),
-                lmi=lmi, metric=metric)
+                lmi=lmi, metric=metric, zeropoint=0 * x0, zeroexpr=0 * f0, zeroprod=(1 - 1.0) * ((x1 - xs) ** 2))
     if scn == "unbounded2":
         pep.add_constraint(held["constraint"])
     return pep, held
